@@ -189,9 +189,17 @@ def loader_table(prog, T="SymEngine::Basic"):
         raise AnalysisBroken("load_rcp_basic<%s> not found" % T)
     f = fs[0]
     sws = find_switches(f)
-    if len(sws) != 2:
-        raise AnalysisBroken("load_rcp_basic: expected two switches")
-    alias_sw, decode_sw = sws
+    # the decode switch is the one whose cases call load_basic; a switch
+    # re-checking the type of an already-loaded (aliased) object may precede
+    # it (its absence is judged by the rules, it is not an analysis failure)
+    decode = [sw for sw in sws if any(
+        n.get("k") == "call" and n.get("n") == "load_basic"
+        for n in walk(sw))]
+    if len(decode) != 1:
+        raise AnalysisBroken("load_rcp_basic: decode switch not found")
+    decode_sw = decode[0]
+    others = [sw for sw in sws if sw is not decode_sw]
+    alias_sw = others[0] if others else None
     table = {}
     for enum, stmts in switch_cases(decode_sw):
         if enum is None:
